@@ -492,6 +492,7 @@ func c18Eval(res *core.Result, b *c18Base, m c18Mut, env *core.Env) {
 	if env != nil {
 		js, _ := json.Marshal(m)
 		env.Note(string(js))
+		env.StepCPU() // the CPU budget is per mutation
 	}
 	replay := core.MkCase("mut-"+core.Hash(m), "damage-"+b.name, 0, c18Params{Base: b.name, Only: &m})
 	fail := func(rule, cause, f string, a ...any) {
